@@ -189,6 +189,14 @@ def o_align(case, T):
     require(u % a == 0 and u >= x and u - x < a, "align_up(%d,%d)=%d", x, a, u)
     if x % a:
         T.nontrivial()
+    if (x + a) % 7 == 0:
+        # the library itself passes integer arrays (roi_from_points): same contract element by element
+        xs = np.asarray([x, -x, x + 1, -x - 1, 0], dtype="int64" if x % 2 or abs(x) >= 2**30 else "int32")
+        ds, us = M.align_down(xs, a), M.align_up(xs, a)
+        for xi, di, ui in zip(xs.tolist(), np.asarray(ds).tolist(), np.asarray(us).tolist()):
+            require(di % a == 0 and di <= xi and xi - di < a, "align_down(array %r,%d) gives %d for element %d", xs.tolist(), a, di, xi)
+            require(ui % a == 0 and ui >= xi and ui - xi < a, "align_up(array %r,%d) gives %d for element %d", xs.tolist(), a, ui, xi)
+        T.cls("array_argument")
 
 
 def e_align(tier):
@@ -496,6 +504,14 @@ def o_fit(case, T):
         g2 = P(np.asarray([p[0]]), np.asarray([p[1]]))
         d = max(abs(float(np.ravel(g1[0])[0]) - float(np.ravel(g2[0])[0])), abs(float(np.ravel(g1[1])[0]) - float(np.ravel(g2[1])[0]))) / s
         require(d < tol_px, "with_input_transform: P(B q) and (P o B)(q) differ by %.3g px", d)
+    # ... and a transform of a transform (a crop of a crop): the second call chains onto the first
+    PBB = PB.with_input_transform(B)
+    for p in probes:
+        q = (~B) * ((~B) * p)
+        g1 = PBB(np.asarray([q[0]]), np.asarray([q[1]]))
+        g2 = P(np.asarray([p[0]]), np.asarray([p[1]]))
+        d = max(abs(float(np.ravel(g1[0])[0]) - float(np.ravel(g2[0])[0])), abs(float(np.ravel(g1[1])[0]) - float(np.ravel(g2[1])[0]))) / s
+        require(d < 2 * tol_px, "with_input_transform twice: P(B B q) and ((P o B) o B)(q) differ by %.3g px", d)
     # Nx2 calling convention
     pp = np.asarray(probes)
     g = P(pp)
